@@ -5,6 +5,53 @@ props = [json.loads(l) for l in open('/verif/properties.jsonl')]
 LEVEL_NOTE = ('Trusted: Coq 8.16.1 kernel (vm_compute in finite computations and in the cases_*.v cross-check; no native_compute), '
               'translator /verif/translator, ExtrOcamlBasic extraction + ocaml/driver.ml, harness and canonicalisers; ')
 DONE = {
+ 'C05': ('§5.C05',
+  'The loops of get_contact_atoms are modelled literally over a symmetric contact test (Section parameter) instantiated with the exact dist^2 <= cutoff^2; '
+  'the distance-test operator, backbone names, hydrogen predicate and defaults are regenerated. Coq proves for any number of chains and atoms and all '
+  'option combinations: two-chain atoms and pairs equal the set-comprehension spec, swap transposes, all-chains atoms exact, all-chains pair map '
+  '(every contacting pair of different chains exactly once under the atom of the earlier chain), cutoff inclusive (stated about the regenerated operator). '
+  'Correspondence on 2-5 chain structures for all 2^4 option combinations and all ordered chain pairs, with float-exact pairs at exactly the cutoff.',
+  'hand-written Gallina model + regenerated operators + Coq theorems (fold invariants) + differential check',
+  'NumPy distance arithmetic compared with exact rationals under the margin rule; the order inside an all-chains pair-map entry is characterised up to permutation. '
+  'Print Assumptions: closed under the global context.'),
+ 'C14': ('§5.C14',
+  'get_contact_residues and _extend_contact_to_residue modelled on top of the C05 model. Coq proves: residues are exactly the projection of the contact atoms, '
+  'the residue pair map is the projection of the atom pair map (set level), extension is the closure over owning residues (all atoms, or backbone atoms under '
+  'only_backbone) including residues sharing a number but differing in name or chain. Correspondence for all 2^5 option combinations.',
+  'hand-written Gallina model + Coq theorems + differential check',
+  'as C05. Print Assumptions: closed under the global context.'),
+ 'C08': ('§5.C08',
+  'compute_fnat_fast (own fixed-column reader, regenerated and proved equal to the wwPDB slices), compute_fnat_pdb2sql (with fix_chainID renaming), '
+  'compute_residue_pairs_ref and compute_clashes modelled; caller constants regenerated. Coq proves both Fnat routes equal the definition (absent residue = '
+  'not preserved), range [0,1], identical => 1, clash count exact outside the F18 class and refuted inside it. Correspondence on reference/decoy pairs with '
+  'deletions on either side, hydrogens, cutoffs 3-8, exact-cutoff residue pairs.',
+  'hand-written Gallina model + regenerated reader/constants + Coq theorems + refutation witness + differential check',
+  'Known finding F18 (pair at exactly 3.000 A counted as a clash). round(nCommon/nTotal, 6) modelled as exact half-even on the binary64 quotient. '
+  'Print Assumptions: closed under the global context.'),
+ 'C10': ('§5.C10',
+  'Rodrigues matrix, Euler matrices and product order, rotate, translation, the database wrappers and the random axis/angle are regenerated once against a number '
+  'dictionary and instantiated at Q (executable) and at R (theorems). Coq proves over the reals: the Rodrigues matrix is a rotation, fixes its axis, is '
+  'right-handed, inverse by the opposite angle; Euler = x then y then z; rotate is rigid; any finite composition is rigid (induction); only selected atoms and only '
+  'coordinates change; inverse restores; random axis unit, angle in [0,2pi). Correspondence on real databases with rational rotations (24 lattice rotations exactly).',
+  'regenerated ring-polymorphic model + Coq theorems over R (ring/nsatz) + differential check',
+  'cos/sin enter as a pair (c,s) with c^2+s^2=1; NumPy arithmetic within 1e-9. Axioms: the standard-library Reals axioms only '
+  '(ClassicalDedekindReals.sig_forall_dec, sig_not_dec, FunctionalExtensionality.functional_extensionality_dep).'),
+ 'C06': ('§5.C06',
+  'The Kabsch steps, the 16 entries of F, the 9 entries of the quaternion matrix, dispatch and guards are regenerated; svd and eigh are Section oracles with '
+  'their specifications. Coq proves over the reals for any number of points, with no rank or sign assumption: the quaternion matrix is a rotation, every rotation '
+  'comes from a unit quaternion (surjectivity), the Wahba certificate is sound, Kabsch is optimal over ALL rotations and never reflects, the quaternion method is '
+  'optimal, both attain the same residual, guards reject uncentred/unequal input; plus a closed PSD/enclosure checker used at run time. The harness records the '
+  'real LAPACK outputs, checks the oracle hypotheses on them and feeds them to the extracted model; degenerate sets (planar, linear, point, identical, mirror).',
+  'regenerated ring-polymorphic model + oracle hypotheses + Coq theorems over R (nsatz/ring) + certified run-time enclosure + differential check',
+  'LAPACK svd/eigh are oracles whose specifications are validated on every recorded call (1e-9). F19g (complex eig on collinear sets) was found by this check and '
+  'fixed in /repo. Axioms: the standard-library Reals axioms only.'),
+ 'C18': ('§5.C18',
+  'get_rotation_angle, the per-axis table of _align_along_axis and the rotation helper are regenerated; pca is an oracle (eigh of the covariance). Coq proves: the '
+  'aligned vector lands on the requested axis for x, y, z (from the regenerated table), the table is total, covariance rotates, single rotation about the centroid, '
+  'principal axis on target under the eigen-oracle and a gap, only coordinates change. Correspondence in ~200 orientations incl. poles and coordinate planes.',
+  'regenerated ring-polymorphic model + oracle hypotheses + Coq theorems over R + differential check',
+  'arctan2/arccos are oracles whose defining hypothesis is checked on every recorded call; no-file-without-export is a harness check. F13 was fixed in /repo. '
+  'Axioms: the standard-library Reals axioms only.'),
  'C12': ('§5.C12',
   'CAPRI cascade and DockQ formula are regenerated from the source by the translator on every run; theorems (total, equal to the '
   'published table in two readings, monotone; DockQ = formula, range, perfect, monotone) are proved in Coq for all rationals; '
